@@ -219,14 +219,22 @@ static int _GD_FindOpenFields(DIRFILE *D, long new_limit)
       if (D->open_fds + D->entry[i]->e->u.raw.fd_count > new_limit) {
         /* At the limit: close the oldest file we've found if the one
          * we just found is newer, otherwise close this field */
-        if (D->opened[D->open_raws]->e->u.raw.atime < atime) {
-          /* FiniRawIO decrements open_raws on success */
-          if (_GD_FiniRawIO(D, D->opened[D->open_raws],
-              D->opened[D->open_raws]->fragment_index, GD_FINIRAW_KEEP))
+        if (D->open_raws > 0 &&
+            D->opened[D->open_raws - 1]->e->u.raw.atime < atime)
+        {
+          /* The list is sorted newest first: the oldest is the last one.
+           * D->open_limit is still zero here, so FiniRawIO doesn't touch the
+           * list: drop the entry ourselves */
+          gd_entry_t *oldest = D->opened[D->open_raws - 1];
+          const int oldest_fds = oldest->e->u.raw.fd_count;
+          if (_GD_FiniRawIO(D, oldest, oldest->fragment_index,
+                GD_FINIRAW_KEEP))
           {
             dreturn("%i", -1);
             return -1;
           }
+          D->open_raws--;
+          D->open_fds -= oldest_fds;
         } else {
           /* Close this file and continue */ 
           if (_GD_FiniRawIO(D, D->entry[i], D->entry[i]->fragment_index,
